@@ -110,7 +110,7 @@ def check(tier, seed):
         "bridges_generated": b["bridges"], "bridge_abi_pairs_run": totals["bridges_run"], "tool_rejected": rejected, "tool_crashed_on_generated_bridge": crashed,
         "distinct_traces": totals["distinct_traces"], "max_distinct_op_transitions_per_bridge": transitions,
         "fault_kinds_fired": {k: v for k, v in counters.items() if k.startswith("fault_")},
-        "reach_probes": {k: v for k, v in counters.items() if k.startswith("probe_") or k in ("finalizers_run", "finalizer_threw", "finalizer_delayed_none_pending", "gc_points", "gc_imprecise", "call_threw", "optional_argument_null", "objects_destroyed", "buffers_freed")},
+        "reach_probes": {k: v for k, v in sorted(counters.items()) if not k.startswith("fault_") and not k.startswith("ops_")},
         "logical_steps_simulated": counters.get("ops_executed", 0), "ops_skipped_by_executor": counters.get("ops_skipped", 0),
         "runs_per_hour": int(totals["runs"] / max(wall, 1e-9) * 3600),
         "model_validation": model_validation,
